@@ -1170,24 +1170,24 @@ def _history_worker(chunk, st: Stats, scratch_root: str):
             st.add("history_cases")
             st.distinct("states", jkey(c))
             st.distinct("outcomes", outcome)
-            seen_req = False
-            stale_risk = False
-            for t in obs["P0"]["turns"]:
+            # stale risk (from the alphabet, not from what the engine did): a turn that does not request reflection
+            # follows one that does
+            opens = [bool(c["allow"]) and PLANNER_ANSWERS[l][1] and not PLANNER_ANSWERS[l][3] for l in c["hist"]]
+            stale_risk = any(opens[i] and not all(opens[i + 1:]) for i in range(len(opens)))
+            reflected_before = False
+            for t, op in zip(obs["P0"]["turns"], opens):
                 if t["planner_raised"]:
                     st.add("n_hist_planner_facade_raised")      # observed, not judged (not the subject of C19)
                     break
-                _comp, req, _pf, dry = PLANNER_ANSWERS[t["letter"]]
                 st.add("n_hist_turns")
                 if t.get("calls"):
                     st.add("n_hist_turns_reflected")
-                if seen_req and not (req and not dry):
-                    stale_risk = True
-                    if c["allow"] and c["shape"] == "attr" and not t.get("calls"):
-                        st.add("n_hist_closed_after_a_reflecting_turn")
-                if req and not dry and t.get("calls"):
-                    seen_req = True
+                if reflected_before and not op and not t.get("calls"):
+                    st.add("n_hist_closed_after_a_reflecting_turn")
+                reflected_before = reflected_before or bool(t.get("calls"))
             if stale_risk:
                 st.add("nontrivial")
+                st.add("n_hist_stale_risk_cases")
             for sig, what in res:
                 st.violation(sig, what, case)
             if len(st.samples) < 1 and stale_risk:
@@ -1533,9 +1533,13 @@ def run(run: Run) -> None:
     run.notes["history_planner_alphabet"] = HIST_LETTERS_ALL if run.thorough else HIST_LETTERS_QUICK + ["(+ Ts unk Pl Td in 5 three-turn histories)"]
     hcases.sort(key=lambda cs: -len(cs["hist"]))
     run.pmap(_history_worker, hcases, extra=(run.scratch,))
-    if not run.n.get("n_hist_turns_reflected") or not run.n.get("n_hist_closed_after_a_reflecting_turn"):
-        raise HarnessError("vacuous: no history turn reflected on a planner request / no non-requesting turn followed a "
-                           "reflecting one (planner facade, fixture format or state stash moved?)")
+    if not run.n.get("n_hist_stale_risk_cases"):
+        raise HarnessError("vacuous: leg H enumerated no history in which a non-requesting turn follows a requesting one")
+    if not run.n.get("n_hist_turns_reflected") and not run.viol:
+        # nothing reflected on a planner request and nothing else is wrong: the seam moved (an engine that reflects
+        # too often or crashes is reported through its violations, never through this guard)
+        raise HarnessError("vacuous: no history turn reflected on a planner request (planner facade, fixture format or "
+                           "state stash moved?)")
     zones = PROBE_ZONES if run.thorough else PROBE_ZONES[:1]
     hs, nkeys = check_hash_seeds(run.scratch, HASH_SEEDS, zones)
     nprobe = sum(len(cs["hist"]) if cs.get("kind") == "history" else 1 for cs in _probe_cases())
